@@ -301,6 +301,10 @@ def runOp (s : Sexp) : String :=
       let r := readVarInt (a ++ t)
       s!"{hexOf a} {sizeVarInt v} {zigZag v} {r.1} {r.2}"
     | _, _ => "bad-op"
+  -- deep nesting probe of the JSON-any decoder: a runtime (stack) matter, outside the model
+  | .list [.atom "jdeep", .atom _] => "unsupported"
+  -- `type P *P`: no finite TyDef
+  | .list [.atom "buildself", .atom _] => "unsupported"
   | .list [.atom "zag", .atom n] =>
     match n.toNat? with
     | some v => s!"{zagZig v} {zigZag (zagZig v)}"
